@@ -109,20 +109,32 @@ class Sess2(Sess):
 SESSIONS = {'s1': Sess, 's2': Sess2}
 
 
-def _mk_request_factory(tag):
+def _mk_request_factory(tag, defines=()):
+    """a Request subclass; `defines` = [[name, kind]…]: attributes the class provides NATIVELY under the names that
+    add_request_method statements use (kind: attr = plain class attribute, method, property)"""
     from pyramid.request import Request
 
-    cls = type('Req_' + tag, (Request,), {})
+    ns = {}
+    for name, kind in defines:
+        val = 'native-%s-%s' % (tag, name)
+        if kind == 'method':
+            ns[name] = (lambda v: (lambda self: v))(val)
+        elif kind == 'property':
+            ns[name] = property((lambda v: (lambda self: v))(val))
+        else:
+            ns[name] = val
+    cls = type('Req_' + tag, (Request,), ns)
     return cls
 
 
 _REQF = {}
 
 
-def request_factory(tag):
-    if tag not in _REQF:
-        _REQF[tag] = _mk_request_factory(tag)
-    return _REQF[tag]
+def request_factory(tag, defines=()):
+    k = (tag, tuple(tuple(d) for d in defines))
+    if k not in _REQF:
+        _REQF[k] = _mk_request_factory(tag, k[1])
+    return _REQF[k]
 
 
 def describe(request, context):
@@ -158,9 +170,32 @@ def describe(request, context):
     return ';'.join(parts)
 
 
+class _ClassView:
+    """class-based view whose method names coincide with request-method extension names (`attr='rm1'`)"""
+    tag = '?'
+
+    def __init__(self, context, request):
+        self.context, self.request = context, request
+
+    def _resp(self, via):
+        from pyramid.response import Response
+        return Response('view=%s;via=%s;%s' % (self.tag, via, describe(self.request, self.context)))
+
+    def __call__(self):
+        return self._resp('call')
+
+    def rm1(self):
+        return self._resp('rm1')
+
+    def rm2(self):
+        return self._resp('rm2')
+
+
 def make_view(tag, mode):
     from pyramid.response import Response
     from pyramid.httpexceptions import HTTPForbidden, HTTPNotFound
+    if mode == 'class':
+        return type('view_' + tag, (_ClassView,), {'tag': tag})
 
     def view(context, request):
         if mode == 'raiseA':
@@ -174,6 +209,8 @@ def make_view(tag, mode):
         text = 'view=%s;%s' % (tag, describe(request, context))
         if mode == 'dict':
             return {'t': text}
+        if mode == 'strresp':
+            return StrResp(text)                 # needs add_response_adapter(…, StrResp)
         r = Response(text)
         if mode == 'exc':
             r.status_int = 500 if not hasattr(context, 'code') else getattr(context, 'code', 500)
@@ -751,7 +788,7 @@ def apply_stmt(config, st):
     elif op == 'set_session_factory':
         config.set_session_factory(SESSIONS[st['factory']])
     elif op == 'set_request_factory':
-        config.set_request_factory(request_factory(st['tag']))
+        config.set_request_factory(request_factory(st['tag'], st.get('defines') or ()))
     elif op == 'set_response_factory':
         from pyramid.response import Response
         tag = st['tag']
@@ -845,6 +882,7 @@ def declare_tree(config, stmts, tree, rec):
 
 import re as _re
 _ADDR = _re.compile(r'0x[0-9a-fA-F]+')
+_QUOTED = _re.compile(r"'[^']*'")
 HDRS = ('Content-Type', 'Location', 'X-Tw', 'X-Sub', 'X-Mapper', 'X-Exec', 'X-RF', 'Cache-Control')
 
 
@@ -870,7 +908,10 @@ def run_probe(app, pr):
         body = resp.text if resp.charset else resp.body.decode('latin-1')
         return [resp.status_int, {h: resp.headers[h] for h in HDRS if h in resp.headers}, _ADDR.sub('0x', body)]
     except Exception as e:
-        return ['raised', type(e).__name__, _ADDR.sub('0x', ' '.join(str(e).split()))[:200]]
+        # an exception that escapes the application: its type and the SHAPE of its message are the answer; quoted
+        # names are blanked, because a request that trips over two defects (two extensions that cannot be set on the
+        # request class, …) reports whichever comes first
+        return ['raised', type(e).__name__, _QUOTED.sub("'…'", _ADDR.sub('0x', ' '.join(str(e).split())))[:200]]
 
 
 def build_variant(stmts, tree, probes, record=True, stages=None):
@@ -1224,6 +1265,8 @@ def gen_program(rng, findings=False):
     routes = []
     for i in range(rng.choice([0, 1, 1, 2, 2, 3])):
         name = 'r%d' % (i + 1)
+        if rng.random() < 0.12 and not any(r['name'] in ('x', 'y') for r in routes):
+            name = rng.choice(['x', 'y'])            # a route named like a view name
         pats = [p for p in ROUTE_PATTERNS if p not in [r['pattern'] for r in routes]]
         st = {'op': 'add_route', 'name': name, 'pattern': rng.choice(pats)}
         if rng.random() < 0.2:
@@ -1288,6 +1331,11 @@ def gen_program(rng, findings=False):
             st['require_csrf'] = rng.choice([True, False])
         if 'mode' not in st and rng.random() < 0.2:
             st['mode'] = rng.choice(['raiseA', 'raiseB', 'forbid', 'notfound'])
+        if 'mode' not in st and rng.random() < 0.06:
+            st['mode'] = 'strresp'                  # the view returns a str subclass: needs the response adapter
+        if 'mode' not in st and rng.random() < 0.05:
+            st['mode'] = 'class'                    # class-based view, attr = a request-method name
+            st['attr'] = rng.choice(RM_NAMES)
         slot = view_slot(st)
         sig = pred_sig(st)
         names = tuple(pred_names(st))
@@ -1350,11 +1398,23 @@ def gen_program(rng, findings=False):
         stmts.append({'op': 'set_csrf_storage_policy', 'tag': 'c1'})
     if rng.random() < 0.45:
         stmts.append({'op': 'set_root_factory', 'factory': rng.choice(['Root1', 'Root2'])})
-    if rng.random() < 0.2:
-        stmts.append({'op': 'set_request_factory', 'tag': 'q'})
+    rms = []
     for n in RM_NAMES:
-        if rng.random() < 0.25:
-            stmts.append({'op': 'add_request_method', 'name': n, 'tag': n + 't', 'property': rng.random() < 0.4, 'reify': rng.random() < 0.5})
+        if rng.random() < 0.28:
+            rms.append({'op': 'add_request_method', 'name': n, 'tag': n + 't', 'property': rng.random() < 0.4, 'reify': rng.random() < 0.5})
+    if rng.random() < 0.04:
+        rms.append({'op': 'add_request_method', 'name': 'session', 'tag': 'sx', 'property': True, 'reify': rng.random() < 0.5})
+    if rng.random() < (0.45 if rms else 0.15):
+        st = {'op': 'set_request_factory', 'tag': 'q'}
+        # NAME OVERLAP between families that only meet at request time: the application's request class natively
+        # defines attributes named like the request-method extensions
+        names = [r['name'] for r in rms if r['name'] in RM_NAMES]
+        if rng.random() < 0.7:
+            defs = [[n, rng.choice(['attr', 'method', 'property'])] for n in (names or RM_NAMES[:1]) if rng.random() < 0.8]
+            if defs:
+                st['defines'] = defs
+        stmts.append(st)
+    stmts += rms
     if rng.random() < 0.4:
         st = {'op': 'add_notfound_view', 'tag': 'nf'}
         if rng.random() < 0.25 and use_renderers:
@@ -1383,7 +1443,7 @@ def gen_program(rng, findings=False):
     for t in ('ta', 'tb'):
         if rng.random() < 0.08:
             stmts.append({'op': 'add_tween', 'tag': t})
-    for op, pr, extra in (('set_view_mapper', 0.05, {'tag': 'm1'}), ('add_response_adapter', 0.04, {}),
+    for op, pr, extra in (('set_view_mapper', 0.05, {'tag': 'm1'}), ('add_response_adapter', 0.12, {}),
                           ('set_response_factory', 0.04, {'tag': 'rf'}), ('add_permission', 0.04, {'permission': 'p3'}),
                           ('set_locale_negotiator', 0.03, {}), ('set_execution_policy', 0.03, {})):
         if rng.random() < pr:
@@ -1420,7 +1480,8 @@ def gen_pre(rng, stmts):
         elif op == 'set_session_factory' and rng.random() < 0.6:
             pre.append({'op': 'set_session_factory', 'factory': 's2' if st['factory'] == 's1' else 's1'})
         elif op == 'set_request_factory' and rng.random() < 0.6:
-            pre.append({'op': 'set_request_factory', 'tag': 'old'})
+            pre.append(dict({'op': 'set_request_factory', 'tag': 'old'},
+                            **({'defines': [[d[0], 'attr'] for d in st['defines']]} if st.get('defines') and rng.random() < 0.5 else {})))
         elif op == 'set_view_mapper' and rng.random() < 0.7:
             pre.append({'op': 'set_view_mapper', 'tag': 'mold'})
         elif op == 'set_default_permission' and rng.random() < 0.6:
@@ -2005,6 +2066,32 @@ ALL_DIRECTIVES_2 = [  # the legacy policies (mutually exclusive with set_securit
     {'op': 'add_view', 'tag': 'v1', 'permission': 'p1'}, {'op': 'set_authentication_policy'}, {'op': 'set_authorization_policy'},
 ]
 
+def _rf_set(kind, defines, prop=False, reify=False):
+    st = {'op': 'set_request_factory', 'tag': 'q'}
+    if defines:
+        st['defines'] = [['rm1', kind]]
+    return {'nest': True, 'stmts': [st, {'op': 'add_request_method', 'name': 'rm1', 'tag': 'ext', 'property': prop, 'reify': reify},
+                                    {'op': 'add_view', 'tag': 'v1'}]}
+
+
+# small scope for name overlaps: request factory F (with / without a native rm1) x add_request_method(rm1: plain /
+# property / reify) x a view reading request.rm1 — every order x every placement of one include (+ a double nesting)
+RF_SETS = [_rf_set('attr', True), _rf_set('method', True, prop=True), _rf_set('property', True, prop=True, reify=True),
+           _rf_set('attr', False), _rf_set('method', True), _rf_set('attr', True, prop=True, reify=True)]
+
+
+def nestings(order):
+    """the flat order, every contiguous run as one include, and the runs nested in one another"""
+    n = len(order)
+    out = [list(order)]
+    for i in range(n):
+        for j in range(i + 1, n + 1):
+            out.append(list(order[:i]) + [list(order[i:j])] + list(order[j:]))
+            if j - i >= 2:
+                out.append(list(order[:i]) + [[order[i], list(order[i + 1:j])]] + list(order[j:]))
+    return out
+
+
 SMALL_SETS = [   # exhaustive scope: every permutation (respecting the documented pairs) of these statement sets
     # overriding what a default Configurator already provides: the built-in renderers, on either side of their users
     [{'op': 'add_view', 'tag': 'v1', 'route_name': 'r1', 'renderer': 'json', 'mode': 'dict'},
@@ -2044,10 +2131,13 @@ SMALL_SETS = [   # exhaustive scope: every permutation (respecting the documente
 
 
 def permutation_cases(stmts, limit=None):
-    pre = None
+    pre, nest = None, False
     if isinstance(stmts, dict):
-        pre, stmts = stmts.get('pre'), stmts['stmts']
+        pre, nest, stmts = stmts.get('pre'), stmts.get('nest'), stmts['stmts']
     out = _permutation_cases(stmts, limit)
+    if nest:          # every order x every include placement, all compared with the first flat order
+        trees = [t for c in out for o in c['variants'] for t in nestings(o)]
+        out = [{'stmts': stmts, 'variants': [trees[0]] + trees[k:k + 40]} for k in range(1, len(trees), 40)]
     if pre:
         for c in out:
             c['pre'] = pre
@@ -2223,6 +2313,9 @@ def run(ctx):
     for k in pick:
         for c in permutation_cases(SMALL_SETS[k], limit=ctx.n(48, None)):
             named.append(('exhaustive-%d' % k, c))
+    for k in ([ctx.seed % len(RF_SETS), (ctx.seed + 1) % len(RF_SETS)] if ctx.tier == 'quick' else range(len(RF_SETS))):
+        for c in permutation_cases(RF_SETS[k]):
+            named.append(('exhaustive-overlap-%d' % k, c))
     n = ctx.n(300, 3000)
     kk, m = ctx.n(3, 4), ctx.n(2, 3)
     for i in range(n):
@@ -2249,7 +2342,7 @@ def search(ctx):
     saved, ctx.driver_path = ctx.driver_path, None
     try:
         named = [('all-directives', {'stmts': ALL_DIRECTIVES, 'variants': gen_variants(ctx.rng, ALL_DIRECTIVES, 4, 2)})]
-        for k, s in enumerate(SMALL_SETS):
+        for k, s in enumerate(SMALL_SETS + RF_SETS):
             for c in permutation_cases(s):
                 named.append(('exhaustive-%d' % k, c))
         for i in range(ctx.n(600, 3000)):
@@ -2264,7 +2357,7 @@ def search(ctx):
         ctx.driver_path = saved
     res = finish(ctx, out, tbl)
     return {'violations': res['violations'], 'searched': res['evaluations'], 'exhaustive': True,
-            'scope': 'every permutation (respecting route/route, subscriber/subscriber, tween/tween) of %d fixed statement sets of 4-5 statements + random programs x 8 variants' % len(SMALL_SETS)}
+            'scope': 'every permutation (respecting route/route, subscriber/subscriber, tween/tween) of %d fixed statement sets of 3-5 statements (the %d name-overlap sets also in every include placement) + random programs x 8 variants' % (len(SMALL_SETS) + len(RF_SETS), len(RF_SETS))}
 
 
 def replay(ctx, rep):
